@@ -230,6 +230,10 @@ def _pattern_hits(case, lines):
 def check_clean(case):
     lines = tg.render(case["lines"])
     cleaner = build_cleaner(case)
+    if case.get("prelude"):
+        # one cleaner serves a whole collection: a spec exempt from obfuscation (hundreds of shipped specs
+        # carry such a list) was cleaned by it before this one - with harmless content of its own
+        cleaner.clean_content(["zq prelude line", "zq second"], no_obfuscate=list(case["prelude"]), no_redact=True)
     out = run_entry(case, cleaner, lines)
     for o in out:
         if not isinstance(o, str):
@@ -584,6 +588,8 @@ def _case(draw, tier):
     case = {"fqdn": w["fqdn"], "obf": obf, "keywords": w["keywords"], "patterns": draw(_patterns(rendered)),
             "no_obfuscate": no_obf, "no_redact": draw(tg.rarely(7)), "allowlist": allow,
             "entry": entry, "width": width, "final_newline": not draw(tg.rarely(4)), "lines": lines}
+    if draw(tg.rarely(4)):
+        case["prelude"] = draw(st.sampled_from([list(OBF_NAMES), ["hostname", "ip", "ipv6", "mac"], ["ip"], ["keyword", "password"]]))
     return case
 
 
